@@ -136,6 +136,12 @@ func (c14) Generate(r *engine.Rand, index int, tier string) *engine.Scenario {
 				if at >= total {
 					at = uint64(r.Intn(int(total)))
 				}
+			} else if r.Bool() {
+				// around a mode boundary of some line (power-on grid)
+				at = uint64(1 + r.Intn(154*int(total/17556))*114 - 2 + engine.Pick(r, []int{0, 1, 18, 19, 20, 21, 58, 59, 60, 61, 62, 112, 113}))
+				if at >= total || at < 1 {
+					at = uint64(r.Intn(int(total)))
+				}
 			}
 			sc.Events = append(sc.Events, engine.Event{At: at, K: "bus_w", A: 0xff41, V: engine.Pick(r, []uint8{0x08, 0x10, 0x20, 0x40, 0x40, 0x00}) | r.Byte()&0x87, S: "select"})
 		}
